@@ -1520,6 +1520,217 @@ func c15RunReadd2(id string, api string, reps int) string {
 	return fmt.Sprintf("managed=%d/%d connected=%d/%d maxconc=%d inside=%d", managed, reps, connected, reps, e.maxconc.Load(), inside)
 }
 
+// c15DialLog records the address of every dial attempt as the supervisor announces it (its Debug
+// line carries the very addr.String() that is handed to the dialer next).
+type c15DialLog struct {
+	c15Logger
+	mu    sync.Mutex
+	dials []c15DialEntry
+}
+
+type c15DialEntry struct {
+	at   time.Time
+	addr string
+}
+
+func (l *c15DialLog) Debug(msg string, args ...interface{}) {
+	if !strings.Contains(strings.ToLower(msg), "dial") {
+		return
+	}
+	for i := 0; i+1 < len(args); i += 2 {
+		if k, _ := args[i].(string); k == "address" {
+			l.mu.Lock()
+			l.dials = append(l.dials, c15DialEntry{time.Now(), fmt.Sprint(args[i+1])})
+			l.mu.Unlock()
+		}
+	}
+}
+
+func (l *c15DialLog) since(t time.Time) []string {
+	l.mu.Lock()
+	defer l.mu.Unlock()
+	var out []string
+	for _, e := range l.dials {
+		if e.at.After(t) {
+			out = append(out, e.addr)
+		}
+	}
+	return out
+}
+
+// c15SimpleReader accepts on l, completes the LLRP exchange on every connection, counts open ones.
+func c15SimpleReader(l net.Listener, conc *atomic.Int64) {
+	for {
+		c, err := l.Accept()
+		if err != nil {
+			return
+		}
+		conc.Add(1)
+		go func(c net.Conn) {
+			defer conc.Add(-1)
+			defer c.Close()
+			c.Write(c15Frame(c15MsgReaderEventNotification, 1, c15ConnEvent(0, 1600000000000000)))
+			for {
+				typ, mid, _, err := c15ReadFrame(c)
+				if err != nil {
+					return
+				}
+				switch typ {
+				case c15MsgGetSupportedVersion:
+					c.Write(c15Frame(c15MsgGetSupportedVersionResp, mid, append([]byte{2 << 5, 2 << 5}, c15Status(0)...)))
+				case c15MsgSetReaderConfig:
+					c.Write(c15Frame(c15MsgSetReaderConfigResp, mid, c15Status(0)))
+				case c15MsgGetReaderConfig:
+					c.Write(c15Frame(c15MsgGetReaderConfigResp, mid, c15Status(0)))
+				case c15MsgCloseConnection:
+					c.Write(c15Frame(c15MsgCloseConnectionResponse, mid, c15Status(0)))
+					time.Sleep(2 * time.Millisecond)
+					return
+				}
+			}
+		}(c)
+	}
+}
+
+// c15RunAddr: an address change as EdgeX delivers it — Driver.UpdateDevice(name, protocols, adminState) —
+// by KIND of change: "port" (other port), "ip4" (other IPv4 address), "mapped" (the IPv4-mapped IPv6
+// spelling of the same endpoint), "zone" (IPv6 link-local, another zone; unreachable, the dials fail),
+// "name" (a host name resolving to another address), "same" (the same address again); admin = locked /
+// unlocked; state = "conn" (the device holds a connection to the old address), "backoff" (the old address
+// refuses, the device sits in its back-offs), "new" (the name is not managed yet).
+// Observed: the address the device has stored afterwards, the address of the NEXT dial attempt after
+// UpdateDevice returned (from the supervisor's own announcement of each dial), and whether the new
+// endpoint ends up holding a connection of the device.
+// answer: "stored=<0|1> next=<new|old|other|none> reached=<0|1|->"
+func c15RunAddr(id, kind, admin, state string) string {
+	var concA, concB atomic.Int64
+	la, err := net.Listen("tcp4", "127.0.0.1:0")
+	if err != nil {
+		return "!listen " + err.Error()
+	}
+	defer la.Close()
+	portA := strconv.Itoa(la.Addr().(*net.TCPAddr).Port)
+	hostB := "127.0.0.1"
+	if kind == "ip4" || kind == "name" {
+		hostB = "127.0.0.2"
+	}
+	lb, err := net.Listen("tcp4", hostB+":0")
+	if err != nil {
+		return "!listen " + err.Error()
+	}
+	defer lb.Close()
+	portB := strconv.Itoa(lb.Addr().(*net.TCPAddr).Port)
+	if state != "backoff" {
+		go c15SimpleReader(la, &concA)
+	} else {
+		la.Close() // the old address refuses
+	}
+	go c15SimpleReader(lb, &concB)
+	c15DNS.register("s"+id, func(label int) [4]byte { return [4]byte{127, 0, 0, 2} })
+	defer c15DNS.unregister("s" + id)
+
+	pm := func(host, port string) protocolMap { return protocolMap{"tcp": {"host": host, "port": port}} }
+	oldP, newP := pm("127.0.0.1", portA), pm("127.0.0.1", portB)
+	target := &concB
+	switch kind {
+	case "ip4":
+		newP = pm("127.0.0.2", portB)
+	case "name":
+		newP = pm("s"+id+"-a1.c15.test.", portB)
+	case "mapped":
+		newP, target = pm("[::ffff:127.0.0.1]", portA), &concA
+	case "same":
+		newP, target = pm("127.0.0.1", portA), &concA
+	case "zone":
+		oldP, newP, target = pm("[fe80::1234%demo0]", portA), pm("[fe80::1234%demo1]", portA), nil
+	}
+	if state == "backoff" && target == &concA {
+		target = nil // the endpoint refuses throughout: only the stored address and the next dial are observed
+	}
+	want, err := getAddr(newP)
+	if err != nil {
+		return "!getaddr " + err.Error()
+	}
+	oldAddr, _ := getAddr(oldP)
+	r := &c15Run{id: id, name: "addr-" + id}
+	lg := &c15DialLog{c15Logger: c15Logger{errs: &r.errLogs}}
+	asyncCh := make(chan *dsModels.AsyncValues, 256)
+	stopDrain := make(chan struct{})
+	defer close(stopDrain)
+	go func() {
+		for {
+			select {
+			case <-asyncCh:
+			case <-stopDrain:
+				return
+			}
+		}
+	}()
+	d := &Driver{lc: lg, asyncCh: asyncCh, svc: &c15SDK{run: r},
+		activeDevices: make(map[string]*LLRPDevice), done: make(chan struct{}), config: &ServiceConfig{}}
+	defer func() { _ = d.RemoveDevice(r.name, nil) }()
+	waitFor := func(f func() bool, dur time.Duration) bool {
+		for dl := time.Now().Add(dur); time.Now().Before(dl); time.Sleep(time.Millisecond) {
+			if f() {
+				return true
+			}
+		}
+		return f()
+	}
+	if state != "new" {
+		_ = d.AddDevice(r.name, oldP, models.Unlocked)
+		if state == "conn" && kind != "zone" {
+			if !waitFor(func() bool { return concA.Load() == 1 }, 3*time.Second) {
+				return "!noconn"
+			}
+			time.Sleep(30 * time.Millisecond)
+		} else {
+			// at least two failed attempts: the device sits in its back-offs
+			if !waitFor(func() bool { return len(lg.since(time.Time{})) >= 2 }, 3*time.Second) {
+				return "!nodial"
+			}
+		}
+	}
+	st := models.Unlocked
+	if admin == "locked" {
+		st = models.Locked
+	}
+	_ = d.UpdateDevice(r.name, newP, models.AdminState(st))
+	t1 := time.Now()
+	// the next attempt: at once (the connection is closed), or after the back-off the device sits in
+	waitFor(func() bool { return len(lg.since(t1)) > 0 }, c15SlowWait+c15QuickWait+600*time.Millisecond)
+	next := "none"
+	if ds := lg.since(t1); len(ds) > 0 {
+		switch {
+		case ds[0] == want.String():
+			next = "new"
+		case oldAddr != nil && ds[0] == oldAddr.String():
+			next = "old"
+		default:
+			next = "other"
+		}
+	}
+	stored := 0
+	d.devicesMu.RLock()
+	dev := d.activeDevices[r.name]
+	d.devicesMu.RUnlock()
+	if dev != nil {
+		dev.deviceMu.RLock()
+		if dev.address != nil && dev.address.String() == want.String() && dev.address.Network() == want.Network() {
+			stored = 1
+		}
+		dev.deviceMu.RUnlock()
+	}
+	reached := "-"
+	if target != nil {
+		reached = "0"
+		if waitFor(func() bool { return target.Load() >= 1 }, 2*c15SlowWait+2*c15QuickWait+time.Second) {
+			reached = "1"
+		}
+	}
+	return fmt.Sprintf("stored=%d next=%s reached=%s", stored, next, reached)
+}
+
 // c15RunPend: a dial that is neither accepted nor refused when Stop arrives. The scripted reader
 // listens with a full accept queue (listen backlog 0, the queue filled with connections of the
 // harness itself, nobody calls accept): the kernel drops further SYNs, a dial hangs in SYN-SENT and
@@ -1719,6 +1930,10 @@ func TestVerifC15(t *testing.T) {
 			defer wg.Done()
 			defer func() { <-sem }()
 			emit("S %d\n", i)
+			if f[1] == "addr" && len(f) == 5 {
+				emit("R %d %s\n", i, c15RunAddr(f[0], f[2], f[3], f[4]))
+				return
+			}
 			if f[1] == "readd2" && len(f) == 4 {
 				reps, _ := strconv.Atoi(f[3])
 				emit("R %d %s\n", i, c15RunReadd2(f[0], f[2], reps))
